@@ -30,8 +30,52 @@ def max_pairs(tier):
     return 3 if tier == "quick" else 4
 
 
+def sweep_cases():
+    """Breadth sweeps (mc/sweeps.py): every token in every role of a remapping / rewiring, near-miss variants as keys (unknown:
+    nothing may happen) and as values (a different string: a new canonical URI prefix), twin strings inside one record."""
+    from .. import sweeps
+    from ..refmodel import mrec
+    from ..universe import recs_to_json as J
+
+    out = []
+
+    def add(op, base, m):
+        if len(set(m.values())) == len(m):
+            out.append({"op": op, "base": J(base), "pairs": [[k, v] for k, v in m.items()]})
+
+    for t in sweeps.TOKENS:
+        tp = "" if ":" in t else t
+        U, V, W, N, M = "u" + t, "v" + t, "w" + t, "n" + t, "m" + t
+        base = [mrec("p" + tp, U, ["q" + tp], [V]), mrec("r", W)]
+        for m in ({U: N}, {V: N}, {U: V}, {U: W}, {"zz" + t: N}, {U: N, W: M}, {W: N, U: M}, {U: ""}, {W: U + "9"}):
+            add("remap_uri", base, m)
+        for m in ({"p" + tp: N}, {"q" + tp: N}, {"p" + tp: V}, {"p" + tp: W}, {"zz" + tp: N}, {"p" + tp: N, "r": M}, {"r": U + "9"}, {"r": N, "q" + tp: M}):
+            add("rewire", base, m)
+        for v in sweeps.variants(U)[:6]:
+            add("remap_uri", base, {v: N})
+            if v not in (V, W):
+                add("remap_uri", base, {W: v})
+                add("rewire", base, {"r": v})
+        for v in sweeps.variants("p" + tp)[:6]:
+            if v not in ("q" + tp, "r"):
+                add("rewire", base, {v: N})
+    for x, y in list(sweeps.TWINS) + list(sweeps.URL_TWINS):
+        X, Y = ("u" + x, "u" + y) if not x.startswith(("http", "urn")) else (x, y)
+        b1 = [mrec("a", X, [], [Y]), mrec("b", "w/")]
+        b2 = [mrec("a", X), mrec("b", "w/")]
+        for m in ({X: "n/"}, {Y: "n/"}, {X: Y}, {"w/": "n/"}):
+            add("remap_uri", b1, m)
+        for m in ({"a": Y}, {"a": "n/"}, {"b": "n/"}):
+            add("rewire", b1, m)
+        for m in ({"w/": Y}, {Y: "n/"}, {X: "n/"}):
+            add("remap_uri", b2, m)
+        for m in ({"b": Y}, {"a": Y}):
+            add("rewire", b2, m)
+    return out
+
+
 def units(tier, seed):
-    us = []
+    us = [{"kind": "sweep", "part": i, "of": 16} for i in range(16)]
     for op in ("remap_uri", "rewire"):
         for b in range(4):
             keys = URI_NAMES[b] if op == "remap_uri" else CURIE_NAMES[b]
@@ -45,7 +89,7 @@ def check(op, base_idx, pairs, ctx=None):
     fails = []
     conv = c11.make_base(base_idx)
     mapping = {k: v for k, v in pairs}
-    where = f"{op}(base {base_idx}, {mapping})"
+    where = f"{op}(base {base_idx}, {mapping!r})"
     f = remap_uri_prefixes if op == "remap_uri" else rewire
     first_result = None
     for rnd in range(2):
@@ -128,12 +172,12 @@ def check(op, base_idx, pairs, ctx=None):
             if rnd == 1 and after.record_set() != before.record_set():
                 fails.append(("rewire/not-idempotent", f"{w}: {sorted(map(repr, after.record_set()))} != first result {sorted(map(repr, before.record_set()))}"))
         if ctx is not None:
-            ctx.digest((op, base_idx, pairs, rnd, sorted((r.prefix, r.uri_prefix, sorted(r.psyn), sorted(r.usyn)) for r in after.records)))
+            ctx.digest((op, repr(base_idx), pairs, rnd, sorted((r.prefix, r.uri_prefix, sorted(r.psyn), sorted(r.usyn)) for r in after.records)))
             ctx.state(hash(canon(res)))
             ctx.count("evaluations", 4 * len(before.records))
             if rnd == 0 and after.record_set() != before.record_set():
                 ctx.count("changed_something")
-                ctx.distinct(hash((canon(res), op, base_idx)))
+                ctx.distinct(hash((canon(res), op, repr(base_idx))))
         if fails:
             return fails
         if rnd == 0:
@@ -167,6 +211,14 @@ def check(op, base_idx, pairs, ctx=None):
 
 
 def run_unit(unit, ctx):
+    if unit.get("kind") == "sweep":
+        for i, case in enumerate(sweep_cases()):
+            if i % unit["of"] != unit["part"]:
+                continue
+            ctx.count("sweep_cases")
+            for sig, msg in check(case["op"], case["base"], case["pairs"], ctx)[:2]:
+                ctx.violation("C12/" + sig, msg, case)
+        return
     op, b, n = unit["op"], unit["base"], unit["n"]
     values = URI_NAMES[b] + EXTRA_VALUES
     for keys in unit["keysets"]:
